@@ -62,6 +62,28 @@ Theorem C17_definition_only_edit_example :
 Proof. exact definition_only_edit. Qed.
 Print Assumptions C17_definition_only_edit_example.
 
+(* the staleness decisions of the model are those of the CODE: need_reload / load_custom_kernel_module
+   (custom/__init__.py) and load_template (generate.py) of the current tree, read on every run (Gen/C17_code.v):
+   one stamp per dependency, "stale iff the stamp is earlier than the file's time" for modules and templates alike -
+   so C17_load_current, instantiated with the code's own choices, is a statement about them *)
+From SM Require Import Gen.C17_code.
+Theorem C17_code_decisions : translated = true ->
+  code_per_file = true /\
+  (forall stamp mtime, code_module_stale stamp mtime = Nat.ltb stamp mtime) /\
+  (forall stamp mtime, code_template_stale stamp mtime = Nat.ltb stamp mtime).
+Proof. intros Ht. try solve [vm_compute in Ht; discriminate Ht]. all: repeat split; reflexivity. Qed.
+Print Assumptions C17_code_decisions.
+Theorem C17_code_load_current : translated = true ->
+  forall (Src : Type) (gen : nat -> nat -> nat -> nat -> Src) (tag : Src -> nat),
+  (forall a b, tag a = tag b -> a = b) ->
+  forall m c h k ops bits,
+  advancing Src gen tag code_per_file (init Src m c h k) ops = true ->
+  let s := fst (run Src gen tag code_per_file (init Src m c h k) ops) in
+  forall s' out, step Src gen tag code_per_file s (Load bits) = (s', Some out) ->
+  out = (txt (fm Src s), gen (txt (fm Src s)) (txt (fc Src s)) (txt (fh Src s)) (txt (fk Src s))).
+Proof. intros Ht. try solve [vm_compute in Ht; discriminate Ht]. all: exact load_current. Qed.
+Print Assumptions C17_code_load_current.
+
 (* the cache key is recoverable from the file name of the library: libraries of two different
    (model id, source tag) pairs, or of two precisions, never share a name ("two different generated
    sources or precisions never share a cached library") *)
